@@ -47,10 +47,20 @@ def main():
             for f in os.listdir(os.path.join(VERIF, "replays")):
                 if f.endswith(".json"):
                     os.unlink(os.path.join(VERIF, "replays", f))
-    with open(os.path.join(VERIF, "seeded", "RESULTS.md"), "w") as f:
+    path = os.path.join(VERIF, "seeded", "RESULTS.md")
+    merged = {}
+    if sys.argv[1:] and os.path.exists(path):
+        # a partial re-run updates its rows and keeps the others
+        for line in open(path).read().splitlines()[2:]:
+            cells = [c.strip() for c in line.strip().strip("|").split("|")]
+            if len(cells) >= 5:
+                merged[cells[0]] = tuple(cells[:5])
+    for row in rows:
+        merged[row[0]] = row
+    with open(path, "w") as f:
         f.write("| seeded change | property | quick check of that property | first reported line | time |\n|---|---|---|---|---|\n")
-        for row in rows:
-            f.write("| " + " | ".join(row) + " |\n")
+        for k in sorted(merged):
+            f.write("| " + " | ".join(merged[k]) + " |\n")
     for row in rows:
         print(" | ".join(row))
     return 0 if all("exit 1" in r[2] for r in rows) else 1
